@@ -554,7 +554,12 @@ def q_fields(cx):
         if real["kind"] not in "CI":
             return None
         # reference fields of this concrete line, from the specification-side extractor
-        sub = [(rel.line.bytes[i], z3.BitVecVal(line[i] if i < len(line) else 0, 8)) for i in range(rel.N)] + [(rel.line.n, T.pos(len(line)))]
+        if hasattr(rel.line, "concrete_subst"):
+            sub = rel.line.concrete_subst(line)
+            if sub is None:
+                return None
+        else:
+            sub = [(rel.line.bytes[i], z3.BitVecVal(line[i] if i < len(line) else 0, 8)) for i in range(rel.N)] + [(rel.line.n, T.pos(len(line)))]
         ev = lambda e: z3.simplify(z3.substitute(e, *sub))
         try:
             ps, pe = ev(ref.p_s).as_long(), ev(ref.p_e).as_long()
